@@ -22,7 +22,7 @@ PARTIAL = ('proved (Properties/C08.v, all closed under the global context): C08_
 ASSUMPTIONS = SR.ASSUMPTIONS
 RULE = ('Hermitian MPOs (XXZ, Ising, Bose-Hubbard, Fermi-Hubbard, random Hermitian with and without charges), L in 1..5 (two-site: L >= 2), '
         'bond profiles, sectors, purely imaginary dt of several sizes, 1..3 steps, 1..6 Krylov iterations, repeated calls on the same state, '
-        'input norms != 1; non-trivial = L >= 2 and max bond >= 2; distinct by input digest')
+        'input norms != 1, real-valued and complex states (real states meet complex Hermitian MPOs: random Hermitian, XXZ with Dzyaloshinskii-Moriya-like complex hopping); non-trivial = L >= 2 and max bond >= 2; distinct by input digest')
 IMPL_PARALLEL = True
 
 
@@ -37,7 +37,8 @@ def cases(rng, tier):
             L = min(L, 3)
         out.append({'kind': kind, 'model': model, 'L': L, 'seed': rng.getrandbits(30), 'dt': rng.choice([0.01, 0.05, 0.2, -0.1, 0.5]),
                     'steps': rng.choice([1, 1, 2, 3]), 'numiter': rng.choice([1, 2, 3, 4, 6]), 'repeat': rng.choice([1, 1, 2]),
-                    'Dmax': rng.choice([1, 2, 3, 4]), 'scale': rng.choice([1.0, 2.5, 0.3])})
+                    'Dmax': rng.choice([1, 2, 3, 4]), 'scale': rng.choice([1.0, 2.5, 0.3]),
+                    'sdtype': 'real' if rng.random() < 0.35 else 'complex'})
     SR.mark_replay(out, {'quick': 24, 'thorough': 120, 'search': 0}[tier], 'steps')
     return out
 
@@ -50,7 +51,7 @@ def impl(case):
     rs = np.random.default_rng(case['seed'])
     H = T.hamiltonian(case['model'], case['L'], rs)
     L = H.nsites
-    psi = T.state(H, rs, Dmax=case['Dmax'])
+    psi = T.state(H, rs, Dmax=case['Dmax'], dtype=case.get('sdtype', 'complex'))
     psi.A[0] = psi.A[0] * case['scale']
     v0 = G.mps_dense(psi.A)
     n0 = float(np.linalg.norm(v0))
@@ -128,7 +129,8 @@ def coq(case, r):
 def klass(case, r):
     if 'skip' in r or 'error' in r:
         return case['kind'] + '/' + ('skip' if 'skip' in r else 'error')
-    return '%s/%s/L%d/it%d%s' % (case['kind'], case['model'], case['L'], min(case['numiter'], 3), '/replay' if r['H']['A'] and 're' in r['H']['A'][0] else '')
+    return '%s/%s/L%d/it%d%s%s' % (case['kind'], case['model'], case['L'], min(case['numiter'], 3), '/real' if case.get('sdtype') == 'real' else '',
+                                   '/replay' if r['H']['A'] and 're' in r['H']['A'][0] else '')
 
 
 def nontrivial(case, r):
